@@ -422,10 +422,18 @@ func newHost(prog *Program, rec *sessRec, mode string, store dbLike, pick func(s
 	return h
 }
 
+func (h *engineHost) freshCache() *cache.Cache {
+	ca := cache.NewCache()
+	if h.prog.CacheSize > 0 {
+		ca = ca.WithCacheSize(uint32(h.prog.CacheSize))
+	}
+	return ca
+}
+
 func (h *engineHost) loadStored() (viseSnap, bool) {
-	pe := persist.NewPersister(h.store).WithContent(state.NewState(uint32(h.prog.FlagCount)), cache.NewCache())
+	pe := persist.NewPersister(h.store).WithContent(state.NewState(uint32(h.prog.FlagCount)), h.freshCache())
 	if err := pe.Load(h.rec.sid); err != nil {
-		return snapState(state.NewState(uint32(h.prog.FlagCount)), cache.NewCache(), nil, false), false
+		return snapState(state.NewState(uint32(h.prog.FlagCount)), h.freshCache(), nil, false), false
 	}
 	return snapState(pe.GetState(), pe.Memory, nil, false), true
 }
@@ -572,7 +580,7 @@ func (h *engineHost) snapNow() viseSnap {
 		return snapVm(h.rec.vmp, nil, false)
 	}
 	if h.st == nil {
-		return snapState(state.NewState(uint32(h.prog.FlagCount)), cache.NewCache(), nil, false)
+		return snapState(state.NewState(uint32(h.prog.FlagCount)), h.freshCache(), nil, false)
 	}
 	return snapState(h.st, h.ca, nil, false)
 }
@@ -601,6 +609,9 @@ func genProgram(rng *rand.Rand, name string) *Program {
 	nflags := 8 + fc
 	if rng.Intn(3) == 0 {
 		p.OutputSize = 24 + rng.Intn(120)
+	}
+	if rng.Intn(4) == 0 {
+		p.CacheSize = 6 + rng.Intn(40) // a small cache capacity: LOAD / RELOAD results may be refused for capacity
 	}
 	clientFlag := func() int { return 8 + rng.Intn(fc) }
 	anyFlag := func() int { return rng.Intn(nflags) }
